@@ -219,14 +219,14 @@ func (c *fdCapture) close() {
 
 var c08Alphabet = []string{"$", "@", ".", ",", "(", ")", "[", "]", "{", "}", "?", "a", "Equal", "1", `"s"`, "AND", "OR", " "}
 
-var parseExtra = []string{"true", "false", "-1.5", "1e3", ".5", "5.", "NaN", "Inf", "infinity", "-Inf", "nan", "'c'", "'cc'", "`r`", "\"a\\\"b\"", "\"a\\nb\"", "\"un", "//c\n", "/*c*/", "/", "\t", "\n", "\x00", "\x01", "\xff", "é", "\xef\xbb\xbf", "Not", "x?", "??", "1.2.3", "0x1p4", "1_0", "\\", "=", "!", "\u00a0", "\u0085", "\v", "*", "-", "+", "\"\\x41\"", "\"\\q\"", "\"tab\there\"", "IsNull", "Select", "Sum", "b", "k1", "9", "0.25", "1e400", "\"\"", "\"\\\\\"", "Foo", "XOR"}
+var parseExtra = []string{"true", "false", "-1.5", "1e3", ".5", "5.", "NaN", "Inf", "infinity", "-Inf", "nan", "'c'", "'cc'", "`r`", "\"a\\\"b\"", "\"a\\nb\"", "\"un", "//c\n", "/*c*/", "/", "\t", "\n", "\x00", "\x01", "\xff", "é", "\xef\xbb\xbf", "Not", "x?", "??", "1.2.3", "0x1p4", "1_0", "0700", "0x1F", "0b1", "0o7", "017", "1__0", "\\", "=", "!", "\u00a0", "\u0085", "\v", "*", "-", "+", "\"\\x41\"", "\"\\q\"", "\"tab\there\"", "IsNull", "Select", "Sum", "b", "k1", "9", "0.25", "1e400", "\"\"", "\"\\\\\"", "Foo", "XOR"}
 
 func genGrammarQuery(r *rng, depth int) string {
 	return gPath(r, "$", depth, false)
 }
 
 var gKeys = []string{"a", "b", "k", "xs", "Key", "n_1", "é", "a?", "b?", "k?"}
-var gNums = []string{"0", "1", "-1", "1.5", "-0.25", "1e3", "2.5e-3", "123456789012345", "0.1", "10", "1E2", "007", "+3", "1e-7"}
+var gNums = []string{"0", "1", "-1", "1.5", "-0.25", "1e3", "2.5e-3", "123456789012345", "0.1", "10", "1E2", "007", "+3", "1e-7", "0700", "010", "0x1F", "0x10", "0b11", "0o17", "1_000", "0_17", "0x1p-2", "08", "00.5"}
 var gStrs = []string{`""`, `"abc"`, `"a b"`, `"a\"b"`, `"a\\b"`, `"l1\nl2"`, `"t\tb"`, `"é"`, `"'"`, "\"`\"", `"\\n"`, `"\\\""`, `"$.a"`, `"x,y"`, `"(]"`, `"日本"`}
 
 func gArg(r *rng, depth int, fns []string) string {
